@@ -34,7 +34,9 @@ def docs():
                        paths={"/pets": {"get": op("listPets", ["pets"]), "post": op("addPet", ["pets"])}})
     d2 = impl.base_doc(info={"title": "My API", "version": "3"}, components={"schemas": {"Thing": obj(x={"type": "integer"})}},
                        paths={"/x": {"get": op("getX")}})
-    return [d0, d1, d2]
+    # no component schemas at all: models/ must still be rebuilt (to an empty package) on overwrite
+    d3 = impl.base_doc(info={"title": "My API", "version": "4"}, paths={"/ping": {"get": {"operationId": "ping", "responses": {"200": {"description": "ok", "content": {"text/plain": {"schema": {"type": "string"}}}}}}}})
+    return [d0, d1, d2, d3]
 
 
 def snapshot(root: Path):
